@@ -99,7 +99,7 @@ Fixpoint to_js (fm : bool) (en : env) (e : expr) {struct e} : js :=
   | ELCall f args => JCall (nth f (e_lfuncs en) "") (map (to_js fm en) args)
   | EList items => JList (map (to_js fm en) items)
   | EPList items => JPropList (map (to_js fm en) items)
-  | EObj _ _ _ => JLit ""      (* object properties are outside the JavaScript theorems (js_ok) *)
+  | EObj _ _ _ | EMenu _ _ _ => JLit ""      (* object properties are outside the JavaScript theorems (js_ok) *)
   end.
 
 (* side conditions: locals are plain local-variable nodes; call names have no translation of their own *)
@@ -114,7 +114,7 @@ Fixpoint js_ok (en : env) (e : expr) {struct e} : Prop :=
                     (fix all (l : list expr) : Prop := match l with [] => True | x :: r => js_ok en x /\ all r end) args
   | EList items | EPList items =>
                     (fix all (l : list expr) : Prop := match l with [] => True | x :: r => js_ok en x /\ all r end) items
-  | EObj _ _ _ => False
+  | EObj _ _ _ | EMenu _ _ _ => False
   | _ => True
   end.
 Fixpoint js_ok_args (en : env) (l : list expr) : Prop := match l with [] => True | x :: r => js_ok en x /\ js_ok_args en r end.
@@ -143,7 +143,7 @@ Fixpoint name_e (fm : bool) (en : env) (e : expr) {struct e} : nexpr :=
   | ELCall f args => NCall (nth f (e_lfuncs en) "") (map (name_e fm en) args)
   | EList items => NList (map (name_e fm en) items)
   | EPList items => NPList (map (name_e fm en) items)
-  | EObj _ _ _ => NLit ""
+  | EObj _ _ _ | EMenu _ _ _ => NLit ""
   end.
 
 Definition all_binops : list binop :=
